@@ -1,20 +1,20 @@
 #!/usr/bin/env python3
-"""Builds the prompt files and scratch worktrees of one sub-agent round (here: round 14, groups U1..U10 under /tmp/mut16).
+"""Builds the prompt files and scratch worktrees of one sub-agent round (here: round 14, groups U1..U10 under /tmp/mut18).
 The agents see only their prompt file and their own worktree of /repo - nothing from /verif except the one-line summaries of earlier changes."""
 import json, subprocess, os, re, glob
 props = [json.loads(l) for l in open('/verif/properties.jsonl')]
 ptxt = '\n\n'.join('%s — %s\n%s' % (p['id'], p.get('title',''), p.get('statement', p.get('description',''))) for p in props)
 groups = {
- 'X1': (['helpers/metadata.rs','helpers/inner_variant_props.rs'], 'strum_macros/src/helpers/metadata.rs and inner_variant_props.rs'),
- 'X2': (['helpers/variant_props.rs','helpers/mod.rs'], 'strum_macros/src/helpers/variant_props.rs and mod.rs'),
- 'X3': (['helpers/type_props.rs'], 'strum_macros/src/helpers/type_props.rs'),
- 'X4': (['helpers/case_style.rs'], 'strum_macros/src/helpers/case_style.rs'),
- 'X5': (['strings/from_string.rs'], 'strum_macros/src/macros/strings/from_string.rs'),
- 'X6': (['strings/display.rs','strings/to_string.rs'], 'strum_macros/src/macros/strings/display.rs and to_string.rs'),
- 'X7': (['strings/as_ref_str.rs','strings/mod.rs','macros/enum_variant_names.rs','macros/enum_variant_array.rs','macros/enum_count.rs'], 'strum_macros/src/macros/strings/as_ref_str.rs, strings/mod.rs, enum_variant_names.rs, enum_variant_array.rs and enum_count.rs'),
- 'X8': (['macros/enum_iter.rs','macros/from_repr.rs'], 'strum_macros/src/macros/enum_iter.rs and from_repr.rs'),
- 'X9': (['macros/enum_discriminants.rs','macros/enum_table.rs'], 'strum_macros/src/macros/enum_discriminants.rs and enum_table.rs'),
- 'X10': (['macros/enum_is.rs','macros/enum_try_as.rs','macros/enum_messages.rs','macros/enum_properties.rs','strum/src/lib.rs'], 'strum_macros/src/macros/enum_is.rs, enum_try_as.rs, enum_messages.rs, enum_properties.rs and the runtime crate strum/src/lib.rs'),
+ 'Z1': (['helpers/metadata.rs','helpers/inner_variant_props.rs'], 'strum_macros/src/helpers/metadata.rs and inner_variant_props.rs'),
+ 'Z2': (['helpers/variant_props.rs','helpers/mod.rs'], 'strum_macros/src/helpers/variant_props.rs and mod.rs'),
+ 'Z3': (['helpers/type_props.rs'], 'strum_macros/src/helpers/type_props.rs'),
+ 'Z4': (['helpers/case_style.rs'], 'strum_macros/src/helpers/case_style.rs'),
+ 'Z5': (['strings/from_string.rs'], 'strum_macros/src/macros/strings/from_string.rs'),
+ 'Z6': (['strings/display.rs','strings/to_string.rs'], 'strum_macros/src/macros/strings/display.rs and to_string.rs'),
+ 'Z7': (['strings/as_ref_str.rs','strings/mod.rs','macros/enum_variant_names.rs','macros/enum_variant_array.rs','macros/enum_count.rs'], 'strum_macros/src/macros/strings/as_ref_str.rs, strings/mod.rs, enum_variant_names.rs, enum_variant_array.rs and enum_count.rs'),
+ 'Z8': (['macros/enum_iter.rs','macros/from_repr.rs'], 'strum_macros/src/macros/enum_iter.rs and from_repr.rs'),
+ 'Z9': (['macros/enum_discriminants.rs','macros/enum_table.rs'], 'strum_macros/src/macros/enum_discriminants.rs and enum_table.rs'),
+ 'Z10': (['macros/enum_is.rs','macros/enum_try_as.rs','macros/enum_messages.rs','macros/enum_properties.rs','strum/src/lib.rs'], 'strum_macros/src/macros/enum_is.rs, enum_try_as.rs, enum_messages.rs, enum_properties.rs and the runtime crate strum/src/lib.rs'),
 }
 earlier = {}
 for d in sorted(glob.glob('/verif/seeded/*/')):
@@ -28,18 +28,18 @@ for d in sorted(glob.glob('/verif/seeded/*/')):
             earlier.setdefault(g, []).append('- ' + s)
 head = subprocess.check_output(['git','-C','/repo','rev-parse','HEAD'],text=True).strip()
 for g,(pats,files) in groups.items():
-    wt = '/tmp/mut16/%s' % g
+    wt = '/tmp/mut18/%s' % g
     subprocess.run(['git','-C','/repo','worktree','add','-q','--detach',wt,head],check=True)
     subprocess.run(['cp','/repo/Cargo.lock',wt+'/Cargo.lock'])
-    os.makedirs('/tmp/mut16/%s.out' % g, exist_ok=True)
+    os.makedirs('/tmp/mut18/%s.out' % g, exist_ok=True)
     prev = '\n'.join(earlier.get(g, [])) or '(none)'
     prompt = f"""You are helping evaluate a verification effort for the Rust crate `strum` (derive macros for enums; repository checked out for you as a scratch git worktree at {wt}; it builds and tests OFFLINE only: always pass `--offline` to cargo, there is no network). Work ONLY inside {wt} and write your results to {wt}.out/ — do not touch any other checkout of the repository, and do not look for or read anything outside {wt} except the cargo registry. Do not write temporary files anywhere else either. Keep your own messages short (no long quotations of code or logs).
 
 Below are 20 semantic properties users of strum rely on. Your job: produce TWO different, realistic, subtle source changes (the kind of slip or well-meant "refactor"/"simplification"/"optimisation"/"hardening"/"small feature" a maintainer could make and a reviewer could wave through), each of which BREAKS AT LEAST ONE of these properties while (a) the workspace still compiles, and (b) the complete existing test suite still passes: `cargo test --workspace --no-fail-fast --offline` (run it in {wt}; it must report zero failures with your change, doctests included).
 
-THIS ROUND: both changes must be about the SHAPE of what is generated rather than about which string or number comes out: the impl HEADER (generic parameters, their bounds and defaults, lifetimes, where clauses, const generics - copied, reordered, dropped, or over-constrained), the SIGNATURES (argument and return types, `&self` vs `self`, `'static` vs elided lifetimes, `const fn` or not, `pub` / `pub(crate)` / inherited visibility of generated items and methods), WHICH trait or inherent impl a function lands in, what a generated item is NAMED, which `#[..]` attributes the generated items carry (`#[inline]`, `#[doc(hidden)]`, `#[allow(..)]`, `#[automatically_derived]`, `#[must_use]`), hygiene of generated LOCAL names (a user field, variant, type parameter or const called like a generated local / generic / lifetime), and how PATTERNS are written (`Self::V` vs `Name::V`, `V {{ .. }}` vs `V(..)` vs `V`, `ref` bindings, `&` patterns, match ergonomics) - so that ordinary non-generic enums with ordinary names keep working and the break needs generics, lifetimes, a clashing name, an unusual visibility, a `const` context, a `&&E` receiver, a trait-object-unsafe bound, or the like. The FIRST change must be SILENT if you can manage it (everything that compiled still compiles; what differs is a run-time result or which impl is selected); if the area offers no silent change of this kind, a narrow compile break is acceptable for both. A compile break must hit only a narrow, specific kind of LEGAL input - a change that breaks every use of a derive is of no interest. Do NOT hand in a change whose only effect is that generated code now uses a bare prelude name (`Option`, `Some`, `Result`, ...) that a user item could shadow, and do not rely on non-ASCII IDENTIFIERS (non-ASCII string literals are fine).
+THIS ROUND: no special restriction on the kind of change - anything realistic that the 17 earlier rounds (listed below for your files) have not done. The FIRST change must be SILENT (every program that compiled before still compiles, no new panic at macro-expansion time; only what the generated or library code returns or does at run time differs). The SECOND change may instead make some unusual but LEGAL input stop compiling (or make an input that must be rejected compile), but only for a narrow, specific kind of input - a change that breaks every use of a derive is of no interest. Do NOT hand in: a change whose only effect is that generated code now uses a bare prelude name (`Option`, `Some`, `Result`, ...) that a user item could shadow; a change that only matters when the USER has a trait in scope whose methods capture a method call in generated code; anything that relies on non-ASCII IDENTIFIERS or on raw identifiers (`r#type`); anything only observable through pointer formatting (`{{:p}}`).
 
-Focus area for you: make both changes in {files}. Read that code carefully first. About 307 changes were already produced in earlier rounds; the ones touching your files are listed below and yours must be of a DIFFERENT kind — read the list, then look for what it leaves untouched.
+Focus area for you: make both changes in {files}. Read that code carefully first. About 340 changes were already produced in earlier rounds; the ones touching your files are listed below and yours must be of a DIFFERENT kind — read the list, then look for what it leaves untouched.
 
 Earlier changes in your files:
 
@@ -56,5 +56,5 @@ THE PROPERTIES
 
 {ptxt}
 """
-    open('/tmp/mut16/%s.prompt.txt' % g, 'w').write(prompt)
+    open('/tmp/mut18/%s.prompt.txt' % g, 'w').write(prompt)
     print(g, len(earlier.get(g, [])), len(prompt))
